@@ -27,6 +27,10 @@ LIT = list("abcxyzdws019_AZ ")
 META = list(".^$*+?{}[]\\|()")
 SET_META = list(".*+?()|${}")
 SHORT = ["\\d", "\\w", "\\s"]
+# ranges inside one character class and across classes (their interior contains characters the library must escape)
+RANGES = [("a", "c"), ("x", "z"), ("0", "5"), ("b", "y"), ("A", "C"), (",", "."), ("+", "/"), ("3", "9"),
+          ("A", "z"), ("Z", "a"), ("0", "Z"), ("5", "b"), ("!", "/"), (" ", "~"), ("#", "'"), (")", "+"),
+          ("<", "@"), ("Y", "b"), ("*", ","), ("{", "}"), ("$", "&"), (".", "9"), ("-", "0")]
 AWKWARD = list("ab0_ A^-]$.*+?|()[\\{},")
 PRINTABLE = [c for c in string.printable if c not in "\n\r\t\x0b\x0c"]
 
@@ -55,8 +59,7 @@ def set_node(draw, off, excluded):
         if k == "lit":
             items.append(["lit", draw(st.sampled_from(LIT))])
         elif k == "range":
-            lo, hi = draw(st.sampled_from([("a", "c"), ("x", "z"), ("0", "5"), ("b", "y"), ("A", "C"), (",", "."),
-                                           ("+", "/"), ("3", "9")]))
+            lo, hi = draw(st.sampled_from(RANGES))
             if seen_short and "set_shortcut_meta" in off and hi in "(+*)?.$":
                 excluded.append("set_shortcut_meta")
                 lo, hi = "a", "c"
